@@ -119,7 +119,7 @@ def run(ctx) -> None:
     from sa.report import run_prerequisite
     run_prerequisite(ctx, "C02", ("R1", "R2", "R3"), "R6")
     # "the text written for {pep440_version}": written by the rewrite, next to a {version} occurrence on the same line as well
-    run_prerequisite(ctx, "C03", ("R1", "R3", "R4"), "R6")
+    run_prerequisite(ctx, "C03", ("R1", "R2", "R3", "R4"), "R6")
     ctx.rule("R7", "prerequisite: the PEP440 value printed by test/show is the comparator's canonical string (C16/R7)")
     run_prerequisite(ctx, "C16", ("R7",), "R7")
     ctx.rule("R8", "prerequisite: in the legacy engine what is rendered for {pep440_version} / {pep440_pycalver} / {pep440_tag} is accepted by its search pattern (C20/R1, those parts only)")
